@@ -402,6 +402,8 @@ def corpus(nl='\n'):
     for cname, tpl in ctxs:
         for b in bodies:
             yield cname, tpl % b.replace('\n', nl)
+    for src in ('$x_#text(red)[y]$\n', '$mat(#box(width: 1em)[y], 2)$\n', '$a^#f(1)[b] / #g(2)[c]$\n', '$sqrt(#h(1em)[z])$\n', '$#f(1)[y]$\n', '#let v = #f(1)\n' if False else '$ #(1 + 2) $\n'):
+        yield 'math-hash', src
     if nl != '\n':
         for src in ('// c%sa\n', '#let x = 1 // c%s#let y = 2\n', '#{%s  let a = 1 // c%s  let b = 2%s}\n', '$ x // c%s y $\n', '#f(1, // c%s 2)\n'):
             yield 'non-LF-newline', src.replace('%s', nl)
